@@ -232,3 +232,48 @@ Lemma c19_docs_nonvacuous :
                          WRead 2; WOpenCommit 2; WRead 2; WCommit 2 4 30; WExternal 40; WRead 1; WCommit 1 5 50]) =
   [ONone; OVersion 1 10; ONone; OVersion 1 10; ONone; ONone; OVersion 2 20; OConflict 3; ONone; OVersion 4 20; ONone; OVersion 5 30; ONone; ONone; OConflict 6].
 Proof. vm_compute. reflexivity. Qed.
+
+(* ---------- several documents, renames ---------- *)
+From TP Require Import Model.WebIdeDocs.
+Lemma klookup_move_dir_other {A} (f : A -> A) (l : list (key * A)) d d' k :
+  fst k <> d -> fst k <> d' -> klookup (move_dir f l d d') k = klookup l k.
+Proof.
+  intros H1 H2. induction l as [|[k0 v] l IH]; cbn; [reflexivity|].
+  destruct (Nat.eqb (fst k0) d) eqn:E; cbn.
+  - apply Nat.eqb_eq in E. unfold key_eqb at 1 2. cbn.
+    assert (Nat.eqb (fst k) d' = false) as -> by now apply Nat.eqb_neq.
+    assert (Nat.eqb (fst k) (fst k0) = false) as -> by (apply Nat.eqb_neq; congruence). cbn. exact IH.
+  - destruct (key_eqb k k0); [reflexivity|exact IH].
+Qed.
+(* renaming (or deleting) a directory leaves every document and file of the other directories exactly as it was *)
+Lemma rename_dir_frame_l s d d' k : fst k <> d -> fst k <> d' ->
+  klookup (md_docs (fst (mstep s (MRenameDir d d')))) k = klookup (md_docs s) k /\
+  klookup (md_disk (fst (mstep s (MRenameDir d d')))) k = klookup (md_disk s) k.
+Proof.
+  intros H1 H2. cbn. destruct (negb (dir_exists s d)); [auto|]. destruct (dir_exists s d'); [auto|]. cbn.
+  split; now apply klookup_move_dir_other.
+Qed.
+Lemma klookup_kremove_other {A} (l : list (key * A)) k k' : key_eqb k k' = false -> klookup (kremove l k') k = klookup l k.
+Proof.
+  intros H. induction l as [|[k0 v] l IH]; cbn; [reflexivity|].
+  destruct (key_eqb k' k0) eqn:E; cbn.
+  - assert (key_eqb k k0 = false) as ->; [|exact IH].
+    unfold key_eqb in *. apply andb_prop in E. destruct E as [E1 E2]. apply Nat.eqb_eq in E1, E2. rewrite <- E1, <- E2. exact H.
+  - destruct (key_eqb k k0); [reflexivity|exact IH].
+Qed.
+(* open / apply / external edit of one path leave every other path's document entry alone *)
+Lemma single_path_frame_l s k k' e c : key_eqb k k' = false ->
+  klookup (md_docs (fst (mstep s (MOpen k')))) k = klookup (md_docs s) k /\
+  klookup (md_docs (fst (mstep s (MApply k' e c)))) k = klookup (md_docs s) k /\
+  klookup (md_docs (fst (mstep s (MExternal k' c)))) k = klookup (md_docs s) k.
+Proof.
+  intros H. cbn. destruct (klookup (md_disk s) k') as [seen|]; cbn; [|auto].
+  repeat split.
+  - unfold kset. cbn. rewrite H. now apply klookup_kremove_other.
+  - destruct (Nat.eqb _ e); cbn; unfold kset; cbn; rewrite H; now apply klookup_kremove_other.
+Qed.
+Lemma mdocs_nonvacuous :
+  mrun {| md_disk := [((0, 0), 10); ((1, 0), 11)]; md_docs := [] |}
+       [MOpen (1, 0); MApply (1, 0) 1 20; MRenameDir 0 2; MApply (1, 0) 1 30; MApply (1, 0) 2 30; MOpen (2, 0); MOpen (0, 0); MRenameDir 1 2] =
+  [MVersion 1 11; MVersion 2 20; MDone; MConflict 2; MVersion 3 30; MVersion 1 10; MNotFound; MExists].
+Proof. vm_compute. reflexivity. Qed.
